@@ -629,7 +629,8 @@ func (g *Gen) Block(r *mon.Rand, parent *refchain.Block, o BlockOpts) *refchain.
 		d.Finalize(true)
 	}
 	label, rule := d.Label, d.Rule
-	if g.ClockNow != 0 && label != refchain.InvalidEarly && msg.Header.Timestamp.Unix() > g.ClockNow+7200 {
+	if g.ClockNow != 0 && msg.Header.Timestamp.Unix() > g.ClockNow+7200 && !(label == refchain.InvalidEarly && len(rule) > 3 && rule[:3] == "hs:") {
+		// header sanity is checked before everything else: a too-new timestamp dominates any other defect
 		label, rule = refchain.InvalidEarly, "hs:time-too-new"
 	}
 	name := o.Name
@@ -643,23 +644,34 @@ func (g *Gen) Block(r *mon.Rand, parent *refchain.Block, o BlockOpts) *refchain.
 	} else {
 		nb = g.Tree.Add(name, msg, parent, label, rule)
 	}
-	// wallet after this block (only meaningful on valid chains)
+	// wallet after this block (only meaningful on valid chains): the parent's wallet minus everything the final
+	// transaction list spends, plus every spendable output the final list creates and does not spend itself
 	e := &ext{}
 	if nb.ChainValid() {
+		allSpent := map[wire.OutPoint]bool{}
+		for i, tx := range msg.Transactions {
+			if i == 0 {
+				continue
+			}
+			for _, ti := range tx.TxIn {
+				allSpent[ti.PreviousOutPoint] = true
+			}
+		}
 		for _, op := range wallet {
-			if !spent[op] {
+			if !allSpent[op] {
 				e.wallet = append(e.wallet, op)
 			}
 		}
-		createdSpent := map[wire.OutPoint]bool{}
-		for _, tx := range msg.Transactions[1:] {
-			for _, ti := range tx.TxIn {
-				createdSpent[ti.PreviousOutPoint] = true
+		for i, tx := range msg.Transactions {
+			if i == 0 {
+				continue
 			}
-		}
-		for _, c := range created {
-			if !createdSpent[c.Op] {
-				e.wallet = append(e.wallet, c.Op)
+			h := tx.TxHash()
+			for j, to := range tx.TxOut {
+				op := wire.OutPoint{Hash: h, Index: uint32(j)}
+				if g.CanSpend(to.PkScript) && !allSpent[op] {
+					e.wallet = append(e.wallet, op)
+				}
 			}
 		}
 		cbh := msg.Transactions[0].TxHash()
